@@ -21,7 +21,7 @@ TECHNIQUE = (
 RULE = (
     "(a) every labelled simple graph on <=N nodes under 3 side-labelling schemes, with added self-links and one parallel link, and for <=4 "
     "nodes every assignment of {absent, 4 orientations} to every pair; biccs from every root, dfs from every start, all_components; "
-    "(b) BFS from the empty graph and 4 seed graphs over add_node(a|b|c), add_edge(x,+-,y,+-) for present x,y, remove_node(x) to depth D. "
+    "(b) BFS from the empty graph and 4 seed graphs over add_node(a|b|c), add_edge(x,+-,y,+-) for present x,y, remove_node(x) and the observations all_components(), dfs(x), biccs(root x) to depth D; the canonical state covers every attribute of the object, so hidden state (flags, caches) is explored too. "
     "evaluations = decomposition calls + transitions; non-trivial = graphs with >=1 articulation point or a cycle, transitions that change the state."
 )
 ASSUMPTIONS = [
@@ -42,7 +42,7 @@ EXHAUSTIVE = True
 
 def bounds(tier):
     if tier == "quick":
-        return {"max_nodes": 5, "all_orientations_max_nodes": 3, "bfs_depth": 4, "bfs_depth_seeded": 3}
+        return {"max_nodes": 5, "all_orientations_max_nodes": 3, "bfs_depth": 4, "bfs_depth_seeded": 4}
     return {"max_nodes": 6, "all_orientations_max_nodes": 4, "bfs_depth": 6, "bfs_depth_seeded": 5}
 
 
@@ -202,8 +202,36 @@ def graphs_part(res, spec, tier):
 NAMES = ["a", "b", "c"]
 
 
-def canon(G):
+def adjacency_canon(G):
     return tuple((n, tuple(sorted(G.nodes[n].start)), tuple(sorted(G.nodes[n].end))) for n in sorted(G.nodes))
+
+
+def _slots(obj):
+    names = []
+    for klass in type(obj).__mro__:
+        for s_ in getattr(klass, "__slots__", ()):
+            if s_ not in names:
+                names.append(s_)
+    names += [k for k in getattr(obj, "__dict__", {}) if k not in names]
+    return names
+
+
+def _val(v):
+    if isinstance(v, (set, frozenset)):
+        return tuple(sorted(map(repr, v)))
+    if isinstance(v, dict):
+        return tuple(sorted((repr(k), _val(x)) for k, x in v.items()))
+    if isinstance(v, (list, tuple)):
+        return tuple(_val(x) for x in v)
+    return repr(v)
+
+
+def canon(G):
+    """canonical state of the real object: every attribute of the graph and of every node (adjacency, flags such as
+    `visited`, and whatever caches a changed implementation may add), so that hidden state makes states distinct"""
+    nodes = tuple((n, tuple((k, _val(getattr(G.nodes[n], k, None))) for k in _slots(G.nodes[n]))) for n in sorted(G.nodes))
+    rest = tuple((k, _val(getattr(G, k, None))) for k in _slots(G) if k != "nodes")
+    return (nodes, rest)
 
 
 def model_canon(nodes, links):
@@ -228,10 +256,50 @@ def ops_for(nodes):
                 out.append(("add_edge", a, ao, b, bo))
     for n in present:
         out.append(("remove_node", n))
+    # observations: they must not change what later operations see
+    if present:
+        out.append(("obs_components",))
+        for n in present:
+            out.append(("obs_dfs", n))
+            out.append(("obs_biccs", n))
     return out
 
 
+def observe(res, G, nodes, links, op, hist):
+    """run one decomposition primitive on the real, history-built object and compare with the model of the current graph"""
+    adj = {n: set() for n in nodes}
+    for (a, sa), (b, sb) in links:
+        adj[a].add(b)
+        adj[b].add(a)
+    simple = {n: {m for m in adj[n] if m != n} for n in adj}
+    comps = set(rgfa.components(adj))
+    case = {"history": [list(o) for o in hist]}
+    try:
+        if op[0] == "obs_components":
+            got = {frozenset(c) for c in G.all_components()}
+            if got != comps:
+                res.fail("C15/components-after-history", f"after {hist}: all_components() = {sorted(map(sorted, got))}, true components {sorted(map(sorted, comps))}", case)
+        elif op[0] == "obs_dfs":
+            order = G.dfs(op[1])
+            comp = next(c for c in comps if op[1] in c)
+            if len(order) != len(set(order)) or set(order) != set(comp):
+                res.fail("C15/dfs-after-history", f"after {hist}: dfs({op[1]}) = {order}, component is {sorted(comp)}", case)
+        else:
+            if len(comps) != 1:
+                return
+            root = op[1]
+            got_c, got_a = G.biccs(set_of_nodes=[root] + [n for n in sorted(nodes) if n != root])
+            arts = rgfa.articulation_points(simple)
+            blks = rgfa.blocks(simple)
+            if set(got_a) != arts or collections.Counter(frozenset(c) for c in got_c) != collections.Counter(blks):
+                res.fail("C15/biccs-after-history", f"after {hist}: biccs from {root} = {sorted(map(sorted, got_c))} / {sorted(got_a)}, true blocks {sorted(map(sorted, blks))} / {sorted(arts)}", case)
+    except Exception as e:
+        res.fail(f"C15/observation-exception:{type(e).__name__}", f"after {hist}: {op} raised {type(e).__name__}: {e}", case)
+
+
 def apply_real(G, op):
+    if op[0].startswith("obs_"):
+        return
     if op[0] == "add_node":
         G.add_node(op[1])
     elif op[0] == "add_edge":
@@ -242,6 +310,8 @@ def apply_real(G, op):
 
 def apply_model(nodes, links, op):
     nodes, links = set(nodes), set(links)
+    if op[0].startswith("obs_"):
+        return frozenset(nodes), frozenset(links)
     if op[0] == "add_node":
         nodes.add(op[1])
     elif op[0] == "add_edge":
@@ -274,8 +344,8 @@ def invariants(res, G, nodes, links, hist, cache):
                 if (n, side, ov) not in other:
                     res.fail("C15/asymmetric-adjacency", f"after {hist}: {n}.{side} lists ({m},{ms}) but {m}.{ms} does not list ({n},{side})", case)
                     return False
-    if canon(G) != model_canon(nodes, links):
-        res.fail("C15/history-differs-from-direct-build", f"after {hist}: adjacency {canon(G)} differs from the graph of the surviving nodes/links {model_canon(nodes, links)}", case)
+    if adjacency_canon(G) != model_canon(nodes, links):
+        res.fail("C15/history-differs-from-direct-build", f"after {hist}: adjacency {adjacency_canon(G)} differs from the graph of the surviving nodes/links {model_canon(nodes, links)}", case)
         return False
     # is_equal_to a graph built directly from the surviving nodes and links
     direct = build_gfa(sorted(nodes), [(a, "+" if sa == 1 else "-", b, "+" if sb == 0 else "-") for (a, sa), (b, sb) in sorted(links)])
@@ -312,6 +382,17 @@ def bfs_part(res, spec, tier):
         for op in ops_for(nodes):
             G2 = copy.deepcopy(G)
             h2 = hist + [op]
+            if op[0].startswith("obs_"):
+                observe(res, G2, nodes, links, op, h2)
+                transitions += 1
+                res.evaluations += 1
+                k = canon(G2)
+                if k != canon(G):
+                    res.count("observations_that_changed_hidden_state")
+                    if k not in seen:
+                        seen.add(k)
+                        frontier.append((G2, nodes, links, h2, d + 1))
+                continue
             try:
                 apply_real(G2, op)
             except Exception as e:
@@ -368,6 +449,10 @@ def replay(case, scratch):
         hist = []
         for op in case["history"]:
             op = tuple(op)
+            if op[0].startswith("obs_"):
+                observe(res, G, nodes, links, op, hist + [op])
+                hist.append(op)
+                continue
             try:
                 apply_real(G, op)
             except Exception as e:
